@@ -630,6 +630,15 @@ def main():
         corpus = corpus_cases()
         cases = [l for l in corpus if l.startswith("C ")] + (gen_cases(c, 1500, 30) if thorough else gen_cases(c, 150, 20))
 
+    if c.replay_path and hbin and os.path.exists(model) and cases and cases[0].startswith("U "):
+        udiffs, ucrash, uacc, ubad = run_uri(c, hbin, model, cases)
+        rc, out_i, _ = c.run_lines(hbin, cases)
+        print("case :", cases[0]); print("value:", repr(unhex(cases[0].split()[3]))); print("impl :", out_i[0] if out_i else None)
+        for k, what in ubad:
+            c.violation("URI validator: " + what, {"case": cases[k], "value": repr(unhex(cases[k].split()[3]))})
+        if udiffs:
+            c.broke("correspondence stream uri_parser", str(udiffs[0]))
+        cases = []
     if hbin and os.path.exists(model) and cases:
         cases = list(dict.fromkeys(cases))
         res = run_all(c, hbin, model, cases, "xss")
